@@ -33,7 +33,7 @@ RULE = (
 ASSUMPTIONS = [
     "alpha_s reference: DOP853 solution of the truncated beta function with pole-mass matching at (k_q m_q)^2 to relative order PTO (perturbative inverse downwards), n_f path reference -> target as the scheme prescribes; "
     "agreement with the coupling the library uses measured <= 5e-7 (1e-13 at LO); for ModEv=TRN only the reference point and the unknown-scheme rejection are demanded",
-    "theory cards: HQ=POLE, MaxNfAs=6, QED=0; FNS in {ZM-VFNS, FFNS, FFN0, FONLL-FFNS, FONLL-FFN0}; unknown FNS must raise ValueError",
+    "theory cards: HQ=POLE, MaxNfAs=6, QED=0; masses default or (1.3,4.2,173), mass reference scales Qm equal to the masses, 2x or 0.75x the masses; FNS in {ZM-VFNS, FFNS, FFN0, FONLL-FFNS, FONLL-FFN0}; unknown FNS must raise ValueError",
     "one-hot outputs are synthetic Output objects built through the public constructors (Output(), ESFResult)",
 ]
 BUDGET = {"quick": 900, "thorough": 3600}
@@ -94,6 +94,12 @@ def _states_base(tier, seed):
         if tier == "quick" and xir == 1.6 and (fns != "ZM-VFNS" or k == (1.0, 1.0, 1.0)):
             continue
         out.append({"t": "theory", "fns": fns, "nfff": nf, "pto": pto, "alphas": ref[0], "Qref": ref[1], "nfref": ref[2], "k": list(k), "ModEv": mod, "XIR": xir})
+    # non-default masses and mass reference scales Qm != m (HQ=POLE: the matching scales and the matching logs follow the masses, never Qm)
+    for (fns, nf), pto, k, (ms, qm) in itertools.product([("ZM-VFNS", 3), ("FFNS", 4), ("FONLL-FFN0", 3)], [1, 2], [(1.0, 1.0, 1.0), (2.0, 2.0, 2.0)], [(None, 2.0), ([1.3, 4.2, 173.0], 0.75), ([1.3, 4.2, 173.0], None)]):
+        st = {"t": "theory", "fns": fns, "nfff": nf, "pto": pto, "alphas": 0.118, "Qref": 91.2, "nfref": 5, "k": list(k), "ModEv": "EXA", "XIR": 1.0, "qm": qm}
+        if ms:
+            st["m"] = ms
+        out.append(st)
     for bad in ("VFNS", "", "ZM"):
         out.append({"t": "theory", "fns": bad, "nfff": 3, "pto": 1, "alphas": 0.118, "Qref": 91.2, "nfref": 5, "k": [1.0, 1.0, 1.0], "ModEv": "EXA", "XIR": 1.0})
     return out
@@ -286,6 +292,10 @@ def _mu_lattice(theory):
 def _theory(st):
     th = copy.deepcopy(cards.BASE_THEORY)
     th.update({"FNS": st["fns"], "NfFF": st["nfff"], "PTO": st["pto"], "alphas": st["alphas"], "Qref": st["Qref"], "nfref": st["nfref"], "kcThr": st["k"][0], "kbThr": st["k"][1], "ktThr": st["k"][2], "ModEv": st["ModEv"], "XIR": st["XIR"], "XIF": 1.0})
+    if st.get("m"):
+        th.update({"mc": st["m"][0], "mb": st["m"][1], "mt": st["m"][2], "Qmc": st["m"][0], "Qmb": st["m"][1], "Qmt": st["m"][2]})
+    if st.get("qm"):
+        th.update({f"Qm{q}": th[f"m{q}"] * st["qm"] for q in "cbt"})
     mus = _mu_lattice(th)
     Q2s = [(mu / st["XIR"]) ** 2 for mu in mus]
     out = _synthetic((1, 0, 0, 0), 1, 2, Q2s)
